@@ -32,6 +32,9 @@ def main():
                 print('scratch copy does not build:\n' + b.stderr[-2000:])
                 return 9
         env = dict(os.environ, VERIF_REPO=root, VERIF_EVIDENCE_DIR=os.path.join(tmp, 'evidence'))
+        if os.environ.get('VERIF_SEEDED_REPLAYS'):
+            # developer runs: keep the replay files of this run apart (tools/seed_units.py reads the failing units from them)
+            env['VERIF_REPLAY_DIR'] = os.environ['VERIF_SEEDED_REPLAYS']
         env.pop('VERIF_REPO_LIB', None)
         worst = 0
         for p in props:
